@@ -36,6 +36,7 @@ type Report struct {
 	MapRanges []string // sites rewritten
 	Points    int
 	Files     []string
+	SetDir    string // scratch copy of golang-set (Vsync only)
 }
 
 const rtPath = "verif/harness/verifrt"
@@ -184,9 +185,19 @@ func Run(o Options) (*Report, error) {
 		}
 		// 2. scheduling points
 		if o.Points {
+			clauseBlocks := map[*ast.BlockStmt]bool{}
 			ast.Inspect(f, func(nd ast.Node) bool {
 				switch b := nd.(type) {
+				case *ast.SwitchStmt:
+					clauseBlocks[b.Body] = true
+				case *ast.TypeSwitchStmt:
+					clauseBlocks[b.Body] = true
+				case *ast.SelectStmt:
+					clauseBlocks[b.Body] = true
 				case *ast.BlockStmt:
+					if clauseBlocks[b] {
+						return true // a list of case clauses, not of statements
+					}
 					b.List = withPoints(b.List, &rep.Points)
 					changed = true
 				case *ast.CaseClause:
@@ -215,20 +226,42 @@ func Run(o Options) (*Report, error) {
 		rep.Files = append(rep.Files, n)
 	}
 	if o.Vsync != "" {
-		src, err := os.ReadFile(o.Vsync)
+		// a scratch copy of golang-set whose threadsafe.go uses vsync for
+		// "sync"; selected with a replace directive in a scratch go.mod
+		// (-modfile), because a new import cannot be introduced by -overlay
+		// into a package of the module cache
+		srcDir := filepath.Dir(o.Vsync)
+		dstDir := filepath.Join(o.Out, "golang-set")
+		if err := os.MkdirAll(dstDir, 0o755); err != nil {
+			return nil, err
+		}
+		ents, err := os.ReadDir(srcDir)
 		if err != nil {
 			return nil, err
 		}
-		s := string(src)
-		if !strings.Contains(s, "import \"sync\"") {
-			return nil, fmt.Errorf("%s: unexpected import form", o.Vsync)
+		for _, e := range ents {
+			if e.IsDir() || strings.HasSuffix(e.Name(), "_test.go") {
+				continue
+			}
+			b, err := os.ReadFile(filepath.Join(srcDir, e.Name()))
+			if err != nil {
+				return nil, err
+			}
+			if e.Name() == "threadsafe.go" {
+				s := string(b)
+				if !strings.Contains(s, "import \"sync\"") {
+					return nil, fmt.Errorf("%s: unexpected import form", o.Vsync)
+				}
+				b = []byte(strings.Replace(s, "import \"sync\"", "import sync \"verif/harness/verifrt/vsync\"", 1))
+			}
+			if err := os.WriteFile(filepath.Join(dstDir, e.Name()), b, 0o644); err != nil {
+				return nil, err
+			}
 		}
-		s = strings.Replace(s, "import \"sync\"", "import sync \"verif/harness/verifrt/vsync\"", 1)
-		dst := filepath.Join(o.Out, "golangset_threadsafe.go")
-		if err := os.WriteFile(dst, []byte(s), 0o644); err != nil {
+		if err := os.WriteFile(filepath.Join(dstDir, "go.mod"), []byte("module github.com/deckarep/golang-set\n"), 0o644); err != nil {
 			return nil, err
 		}
-		overlay[o.Vsync] = dst
+		rep.SetDir = dstDir
 	}
 	ob, _ := json.MarshalIndent(map[string]interface{}{"Replace": overlay}, "", " ")
 	rep.Overlay = filepath.Join(o.Out, "overlay.json")
